@@ -70,6 +70,14 @@ func Corpus() *Env {
 		def("dtr", R("TrStr"), VStr("t"), `"t"`),
 		def("drec", R("Inner"), VRec(KV{"id", VI32(7)}), `{"id": 7}`),
 		def("dunion", R("U1"), VUnion(KV{"int", VI32(3)}), `{"int": 3}`),
+		// longs no float64 holds exactly, directly and through a typeref
+		def("dlmax", P("i64"), VI64(9223372036854775807), `9223372036854775807`),
+		def("dlodd", P("i64"), VI64(-9007199254740993), `-9007199254740993`),
+		def("dtl", R("TrI64"), VI64(9007199254740993), `9007199254740993`),
+		// containers of containers and of records: a copy per instance must be deep
+		def("dnest", A(R("Inner")), VArr(VRec(KV{"id", VI32(1)}), VRec(KV{"id", VI32(2)})), `[{"id": 1}, {"id": 2}]`),
+		def("daa", A(A(P("i32"))), VArr(VArr(VI32(1), VI32(2)), VArr(VI32(3))), `[[1, 2], [3]]`),
+		def("dma", M(A(P("i32"))), VMap(KV{"k", VArr(VI32(1))}), `{"k": [1]}`),
 		req("req", P("str"))}})
 	add(&Decl{Name: "InclDefaults", Kind: "record", Includes: []string{"Defaults"}, Fields: []Field{opt("x", P("i32"))}})
 	add(&Decl{Name: "NestedDefaults", Kind: "record", Fields: []Field{
